@@ -192,7 +192,8 @@ func (m *Dense) UnmarshalBinary(data []byte) error {
 
 // UnmarshalBinaryFrom decodes the binary form into the receiver and returns
 // the number of bytes read and an error if any.
-// It panics if the receiver is a non-empty Dense matrix.
+// It panics if the receiver is a non-empty Dense matrix. If an error is
+// returned the receiver is left empty.
 //
 // See MarshalBinary for the on-disk layout.
 //
@@ -240,6 +241,9 @@ func (m *Dense) UnmarshalBinaryFrom(r io.Reader) (int, error) {
 		nn, err := readFull(r, b[:])
 		n += nn
 		if err != nil {
+			// Do not leave a partially filled matrix
+			// in the receiver.
+			m.Reset()
 			if err == io.EOF {
 				return n, io.ErrUnexpectedEOF
 			}
@@ -382,7 +386,8 @@ func (v *VecDense) UnmarshalBinary(data []byte) error {
 
 // UnmarshalBinaryFrom decodes the binary form into the receiver, from the
 // io.Reader and returns the number of bytes read and an error if any.
-// It panics if the receiver is a non-empty VecDense.
+// It panics if the receiver is a non-empty VecDense. If an error is
+// returned the receiver is left empty.
 //
 // See MarshalBinary for the on-disk layout.
 // See UnmarshalBinary for the list of sanity checks performed on the input.
@@ -422,6 +427,9 @@ func (v *VecDense) UnmarshalBinaryFrom(r io.Reader) (int, error) {
 		nn, err := readFull(r, b[:])
 		n += nn
 		if err != nil {
+			// Do not leave a partially filled vector
+			// in the receiver.
+			v.Reset()
 			if err == io.EOF {
 				return n, io.ErrUnexpectedEOF
 			}
